@@ -1258,3 +1258,14 @@ package core
 // The witness of that failure, as a (discharged) ground lemma: the forks with keys
 // ("a/fork_b", "c") and ("a", "b/fork_c") get the same journal name.
 //@ lemma journal_names_collide_witness property C11 uses journal : jid2("a/fork_b", "c") != jid2("a", "b/fork_c") && jenc(jid2("a/fork_b", "c")) == jenc(jid2("a", "b/fork_c"))
+
+// ---------------------------------------------------------------- C01 a merge has one entry per element of the mapped collection
+// TopNode.getParts(src, forkId, id) lists the fork parts a merge over call src ranges over: one
+// part per index or key, so no index may appear twice (each becomes one element of the merged
+// value).  Stated as the invariant of the loop that collects the parts of run-time forks
+// (the other branches take the parts from tables built elsewhere).  Its step FAILS on the
+// unchanged tree (known finding, not repaired): every fork matching the fork context contributes its
+// part, and forks that differ only in an OUTER index share the inner one.
+//@ func core.TopNode.getParts property C01
+//@   requires node != nil
+//@   loop 1 invariant forall i, j :: 0 <= i && i < j && j < len(matchingParts) && matchingParts[i] != nil && matchingParts[j] != nil ==> matchingParts[i].Id != matchingParts[j].Id
